@@ -39,7 +39,8 @@ ASSUMPTIONS = [
     'readers may be cancelled while they WAIT in the read guard (modelled: ReadCancel); a reader already at the driver is not; '
     'submitters of a write are never cancelled while they wait for their ticket (true of every call site: API requests, '
     'fire_and_forget tasks, the eval loop, which is cancelled after the write loop)',
-    'the write loop task is not cancelled (port removal is outside the statement; see notes/C14.md, finding 2)',
+    'port removal (cleanup() cancels the write loop) is in the schedules for the exclusion, order and drop clauses; that the '
+    'tickets pending at removal are never answered (notes/C14.md, finding 2) is not held against the code',
     'a port is loaded once, when it is created (core_ports.load); reset() may run at any time',
     'the exclusion theorems are about driver calls made through read_transformed_value, the write loop and load_from_data; a '
     'driver that calls its own write_value (gpio/dummy handle_enable) is outside',
@@ -116,6 +117,8 @@ def gen_schedule(rng, sid):
                 cmds.append(['CancelWaitingReader', cmds[-1][1] if cmds[-1][0] == 'Reset' else cmds[-2][1]])
                 if rng.random() < 0.6:
                     cmds.append(rng.choice([['Reset', cmds[-1][1]], ['Tick']]))
+        elif r < 0.92 + 0.005 * (len(cmds) > n // 2):
+            cmds.append(['Remove', rng.choice(['w', 'w', 'e'])])
         elif r < 0.925:
             cmds.append(['CancelWaitingReader', rng.choice(['w', 'e', 's'])])
         elif r < 0.93:
@@ -142,6 +145,7 @@ SMALL_D = SMALL_C + [['Disable', 'w'], ['Enable', 'w']]
 SMALL_E = SMALL_A + [['CompleteWrite', 'w', 'timeout']]
 SMALL_T = [['ApiWrite', 'w', 0], ['ApiWrite', 'w', 1], ['Tick'], ['CompleteRead', 'w', 'val'], ['CompleteWrite', 'w', 'ok']]
 SMALL_L = [['Tick'], ['Reset', 'w'], ['CompleteRead', 'w', 'val'], ['Advance', 61000], ['Advance', 1000]]
+SMALL_R = SMALL_A + [['Remove', 'w']]
 SMALL_PORTS_PLAIN = {'w': {'writable': True, 'rlat': None, 'wlat': None, 'plain': True}}
 
 
@@ -287,7 +291,11 @@ def overlap_site(tr):
     for e in tr:
         if e[0] in ('WriteStart', 'DirectStart'):
             if inflight:
-                return 'load_from_data direct write_value' if 'DirectStart' in (e[0], inflight) else 'write loop'
+                if 'DirectStart' not in (e[0], inflight):
+                    return 'write loop'
+                if any(x[0] == 'Discard' for x in tr):
+                    return 'direct write_value of an entry taken out of the queue outside the write loop'
+                return 'load_from_data direct write_value'
             inflight = e[0]
         elif e[0] in ('WriteEnd', 'DirectEnd'):
             inflight = None
@@ -406,7 +414,7 @@ def nontrivial(tr):
 def drained_ok(run):
     fin = run.get('final') or {}
     return run.get('status') == 'ok' and bool(fin) and all(
-        not f['pending_reads'] and not f['pending_writes'] and not f['qsize'] for f in fin.values())
+        not f['pending_reads'] and not f['pending_writes'] and not f['qsize'] for f in fin.values() if not f.get('removed'))
 
 
 def evaluate(ctx, res, schedules, runs, stats, tag):
@@ -427,7 +435,9 @@ def evaluate(ctx, res, schedules, runs, stats, tag):
         if not dr:
             stats.bump('not-drained')
         for pid, tr in run['events'].items():
-            cases.append((i, pid, sc['cap'], dr, tr))
+            # a removed port is not expected to answer what was pending (finding 2): liveness clause off for it
+            pdr = dr and not ((run.get('final') or {}).get(pid) or {}).get('removed')
+            cases.append((i, pid, sc['cap'], pdr, tr))
             stats.events += len(tr)
             if nontrivial(tr):
                 stats.nontrivial.add(json.dumps([sc['cap'], sc['ports'], sc['cmds']], sort_keys=True))
@@ -625,7 +635,7 @@ def check(ctx, res):
     res['rule'] = (
         'schedule = queue capacity (4 in half of the runs, else 1024) + driver latencies per port (manual / 0-70 virtual ms) + '
         'commands Tick, Advance, SetSource, CompleteRead, CompleteWrite, ApiWrite (bursts of up to 7), SetSequence, SetAttr, Reset, '
-        'CancelWaitingReader, Disable/Enable (PATCH /ports/p enabled), SetExpr, Load '
+        'CancelWaitingReader, Disable/Enable (PATCH /ports/p enabled), SetExpr, Remove, Load '
         'on ports s (source), w (writable), e (expression over s, w), pl (persisted, loaded at run time); evaluations = '
         'schedules run on the real code, each giving one trace per port. non-trivial = some port has a driver call suspended '
         'while another step of that port happens, or its queue overflows; distinct = distinct (capacity, latencies, commands)'
@@ -649,22 +659,24 @@ def check(ctx, res):
     # exhaustive small scope on the one-port template (capacity 2)
     if ctx.tier == 'quick':
         small = (enum_small(SMALL_D, 4, 2, 0) + enum_small(SMALL_E, 4, 2, 300000) + enum_small(SMALL_T, 4, 2, 400000)
-                 + enum_small(SMALL_A, 4, 2, 500000, SMALL_PORTS_PLAIN) + enum_small(SMALL_L, 4, 2, 600000))
+                 + enum_small(SMALL_A, 4, 2, 500000, SMALL_PORTS_PLAIN) + enum_small(SMALL_L, 4, 2, 600000)
+                 + enum_small(SMALL_R, 4, 2, 700000))
     else:
         small = (enum_small(SMALL_A, 7, 2, 0) + enum_small(SMALL_B, 5, 2, 100000) + enum_small(SMALL_D, 4, 2, 200000)
                  + enum_small(SMALL_C, 5, 2, 250000) + enum_small(SMALL_E, 5, 2, 300000) + enum_small(SMALL_T, 5, 2, 400000)
-                 + enum_small(SMALL_A, 6, 2, 500000, SMALL_PORTS_PLAIN) + enum_small(SMALL_L, 6, 2, 600000))
+                 + enum_small(SMALL_A, 6, 2, 500000, SMALL_PORTS_PLAIN) + enum_small(SMALL_L, 6, 2, 600000)
+                 + enum_small(SMALL_R, 5, 2, 700000))
     batches(ctx, res, small, stats, seen, 'small', chunk=4000)
     res['exhaustive'] = True
     res['extra']['exhaustive_scope'] = (
         'all command sequences of length <= %s over {ApiWrite w, Tick, CompleteRead w, CompleteWrite w%s} on one writable port '
         'with manual latencies and capacity 2: %d schedules' % (
             ('4', ', Reset w, CancelWaitingReader w, Disable w, Enable w; with a driver timeout; with API values toggling over '
-             '{0,1}; with a driver whose methods return futures; reads hanging beyond a minute of virtual time', len(small))
+             '{0,1}; with a driver whose methods return futures; reads hanging beyond a minute of virtual time; with Remove w', len(small))
             if ctx.tier == 'quick' else
             ('7 (<= 5 with Reset w; <= 5 with CancelWaitingReader w; <= 4 with Disable/Enable w; <= 5 with a driver timeout; '
              '<= 5 with API values toggling over {0,1}; <= 6 with a driver whose methods return futures; <= 6 over {Tick, Reset w, '
-             'CompleteRead w, Advance 61 s, Advance 1 s})', '', len(small))))
+             'CompleteRead w, Advance 61 s, Advance 1 s}; <= 5 with Remove w)', '', len(small))))
     n = ctx.n(400, 20000)
     scheds = [gen_schedule(ctx.rng, i) for i in range(n)]
     batches(ctx, res, scheds, stats, seen, 'rand')
